@@ -540,6 +540,10 @@ def run(ctx):
             if any(m['phase'] == 'fail' and m['exc'] in ('Unmodelled', 'OutOfFuel') for m in local):
                 ctx.histogram['unmodelled'] = ctx.histogram.get('unmodelled', 0) + 1
                 continue
+            if not all(m['result'] is None or (abs(m['result'].numerator) < 2 ** 48 and m['result'].denominator
+                                               <= 2 ** 48) for m in local):
+                ctx.histogram['inexact-skipped'] = ctx.histogram.get('inexact-skipped', 0) + 1
+                continue        # the implementation's floats were not exact: nothing to compare bit for bit
             for name, got, m in (('A', oa, local[0]), ('B', ob, local[1])):
                 mine = dict(result=m['result'], passes=m['passes'], calls=m['calls'])
                 theirs = dict(result=got.get('result'), passes=got.get('passes'), calls=got.get('calls'))
